@@ -58,11 +58,16 @@ Theorem nested_latest cfg c lvc pre inn post devf f n initial horizon :
   LATEST (Cf cfg c lvc) (fst (fst (sim_run cfg devf n (S f) initial horizon))).
 Proof.
   intros Hsh Hwf Hnd Hext.
-  assert (Hsib : sib_ok cfg (S f) c lvc pre inn post).
-  { apply sib_ok_devices. intros y Hy. destruct Hwf as [Hk _]. rewrite (inline_top_order _ _ _ _ _ _ Hsh) in Hk.
-    assert (Hi : In (dk cfg y) (map (dk cfg) pre ++ map dv inn ++ map (dk cfg) post)).
-    { apply in_app_iff in Hy. apply in_app_iff. destruct Hy as [Hy|Hy]; [left | right; apply in_app_iff; right]; apply in_map; exact Hy. }
-    exact (Hk _ Hi). }
+  assert (Hsib : sib_ok cfg f c lvc pre inn post).
+  { destruct Hwf as [Hk _]. rewrite (inline_top_order _ _ _ _ _ _ Hsh) in Hk. apply sib_ok_devices.
+    - intros y Hy.
+      assert (Hi : In (dk cfg y) (map (dk cfg) pre ++ map (dki cfg lvc) inn ++ map (dk cfg) post)).
+      { apply in_app_iff in Hy. apply in_app_iff. destruct Hy as [Hy|Hy]; [left | right; apply in_app_iff; right]; apply in_map; exact Hy. }
+      exact (Hk _ Hi).
+    - intros y Hy.
+      assert (Hi : In (dki cfg lvc y) (map (dk cfg) pre ++ map (dki cfg lvc) inn ++ map (dk cfg) post)).
+      { apply in_app_iff. right. apply in_app_iff. left. apply in_map. exact Hy. }
+      exact (Hk _ Hi). }
   pose proof (run_inline cfg c lvc pre inn post Hsh devf Hnd Hext f Hsib n initial horizon) as HB.
   pose proof (sim_run_latest (inline cfg c lvc) devf (S f) Hwf Hnd n initial horizon) as HL.
   rewrite (inline_top_conns cfg c lvc) in HL.
